@@ -17,6 +17,7 @@ import (
 	"os"
 	"path/filepath"
 	"strings"
+	"sync"
 	"sync/atomic"
 
 	"github.com/tsawler/tabula"
@@ -64,7 +65,24 @@ func applyTextMode(e *tabula.Extractor, tm string) *tabula.Extractor {
 var sharedReaderViews atomic.Int64
 
 // view runs one facade API and returns its text rendering.
+// ghosts: path -> document spec, for files that carry an unreadable extra page.
+var ghosts sync.Map
+
 func view(path string, pagesSel []int, selHow, mode, api, tm string) (string, error) {
+	if v, ok := ghosts.Load(path); ok {
+		// the requests speak about the logical pages; "all pages" = all readable ones
+		d := v.(*docSpec)
+		var sel []int
+		if len(pagesSel) == 0 {
+			for p := 1; p <= d.NPages; p++ {
+				sel = append(sel, d.phys(p))
+			}
+		}
+		for _, p := range pagesSel {
+			sel = append(sel, d.phys(p))
+		}
+		pagesSel = sel
+	}
 	e := tabula.Open(path)
 	defer e.Close()
 	// a third of the views run on a caller-owned reader.Reader that has already
@@ -182,6 +200,10 @@ func (pc *pdfCase) reduced() string {
 	_, data := render(&rd, pc.renderSeed())
 	pc.reducedPath = strings.TrimSuffix(pc.path, ".pdf") + "-reduced.pdf"
 	os.WriteFile(pc.reducedPath, data, 0o644)
+	if rd.Ghost > 0 {
+		rdc := rd
+		ghosts.Store(pc.reducedPath, &rdc)
+	}
 	return pc.reducedPath
 }
 
@@ -194,7 +216,7 @@ func directCheck(c *fw.Ctx, pc *pdfCase) (verdict, bool) {
 	frags := make([][]text.TextFragment, d.NPages)
 	owner := make([][]int, d.NPages) // fragment -> unit index
 	for p := 0; p < d.NPages; p++ {
-		fr, _, err := tabula.Open(pc.path).Pages(p + 1).Fragments()
+		fr, _, err := tabula.Open(pc.path).Pages(d.phys(p + 1)).Fragments()
 		if err != nil || len(fr) != len(pc.per[p]) {
 			return verdict{}, false
 		}
@@ -490,6 +512,11 @@ func runPDF(c *fw.Ctx, dir string, i int) {
 		return
 	}
 	d := genDoc(c.Rand("pdf", i), genOpts{})
+	if i%5 == 4 && d.NPages >= 2 {
+		// the file carries one more page, which cannot be extracted, somewhere before
+		// the last page: requests name the readable pages only
+		d.Ghost = 1 + c.Rand("pdf", i, "ghost").Intn(d.NPages)
+	}
 	reqs := genRequests(c.Rand("pdf", i, "req"), d, 5)
 	runDoc(c, dir, id, fmt.Sprintf("d%06d.pdf", i), d, func() *rand.Rand { return c.Rand("pdf", i, "render") }, reqs)
 }
@@ -541,6 +568,11 @@ func runWitness(c *fw.Ctx, dir string) {
 func runDoc(c *fw.Ctx, dir, id, file string, d *docSpec, renderSeed func() *rand.Rand, reqs []request) {
 	per, data := render(d, renderSeed())
 	path := filepath.Join(dir, file)
+	if d.Ghost > 0 {
+		ghosts.Store(path, d)
+		defer ghosts.Delete(path)
+		d.feat("file.unreadable-extra-page")
+	}
 	if err := os.WriteFile(path, data, 0o644); err != nil {
 		c.Inconclusive("cannot write scratch file: " + err.Error())
 		return
